@@ -89,21 +89,21 @@ type symCond struct {
 type symPath struct {
 	reads     []symRead
 	innerStep string // "" ok; otherwise what the inner loop does to its counter
-	kind  string // back | exit | inner | panic
-	conds []symCond
-	next  map[string]interface{} // role -> value at the end of the iteration
-	ret   interface{}
-	where string
+	kind      string // back | exit | inner | panic
+	conds     []symCond
+	next      map[string]interface{} // role -> value at the end of the iteration
+	ret       interface{}
+	where     string
 }
 
 type symScanResult struct {
-	lineSteps int // iteration paths through the line-feed branch with a recognisable elision test
-	init    map[string]string // role -> initial value of the loop-carried variable
-	decided bool
-	why     string
-	paths   []symPath
-	markers map[string]int // START/END -> length
-	fn      *ssa.Function
+	lineSteps int               // iteration paths through the line-feed branch with a recognisable elision test
+	init      map[string]string // role -> initial value of the loop-carried variable
+	decided   bool
+	why       string
+	paths     []symPath
+	markers   map[string]int // START/END -> length
+	fn        *ssa.Function
 }
 
 type symFrame struct {
@@ -540,6 +540,9 @@ func (ex *symExec) run(st *symState) {
 			for i, p := range f.blk.Preds {
 				if p == f.prev {
 					v = ex.eval(f, x.Edges[i])
+					if m, ok := f.env[condMeta{x.Edges[i]}]; ok {
+						f.env[condMeta{x}] = m
+					}
 				}
 			}
 			f.env[x] = v
@@ -675,6 +678,12 @@ func (ex *symExec) run(st *symState) {
 			st.stack = st.stack[:len(st.stack)-1]
 			caller := st.stack[len(st.stack)-1]
 			caller.env[f.call] = rv
+			if len(x.Results) == 1 {
+				// what a boolean helper established about the input is what its caller branches on
+				if m, ok := f.env[condMeta{x.Results[0]}]; ok {
+					caller.env[condMeta{f.call}] = m
+				}
+			}
 			caller.idx++
 			continue
 		default:
